@@ -69,6 +69,8 @@ def x_hist(ctx, case):
     try:
         H.drive(top, history, details_fn=details_fn)
         crashed = None
+        ctx.check(not getattr(far, "unhashable_tests", None), "far.one-bracket-per-test-same-id",
+                  lambda: {"replayed test objects that cannot be hashed": far.unhashable_tests[:3], **detail()})
         late = sink.aliasing_problems()
         ctx.check(not late, "stream.events-not-changed-after-delivery",
                   lambda: {"tag sets that changed after the event carrying them was delivered": late, **detail()})
@@ -241,6 +243,7 @@ def x_hist(ctx, case):
 SUBCHECKS = {"hist": x_hist}
 
 TYPES = [["application", "octet-stream", {}], ["text", "plain", {"charset": "utf8"}], ["text", "plain", {}],
+         ["application", "x-log", {"name": "r\xe9sum\xe9 \u2603.txt"}],
          ["text", "x-traceback", {"charset": "utf8", "language": "python"}],
          ["video", "mp4", {"codecs": "avc1.42E01E, mp4a.40.2"}], ["application", "x-foo", {"a": "b c", "z": "1;2"}]]
 NAMES = ["foo", "log", "traceback", "d\xe9tail", "reason2", "bin", ""]
@@ -276,6 +279,8 @@ def rand_history(rng):
             h.append(["tags"] + H.random_tag_change(rng))
         elif x < 0.4:
             h.append(["time", rng.randrange(len(H.TIMES))])
+        elif x < 0.48:
+            h.append(["failfast", rng.random() < 0.5])     # switched on / off between tests: nothing is lost
         k += 1
         outcome = rng.choice(H.OUTCOMES)
         forms = {"addSuccess": ["none", "details"], "addSkip": ["reason", "details"],
